@@ -103,6 +103,21 @@ class Normalizer:
                 r["op"] = NEG[e["op"]]
                 r["id"], r["sp"], r["nf"] = n.get("id"), n.get("sp"), "NF5"
                 return self.rewrite(r)
+            if e.get("k") == "MethodCall" and e["name"] == "all" and len(e.get("args") or ()) == 1 and e["args"][0].get("k") == "Closure" \
+                    and (e.get("callee") or "").split("<")[0].endswith("Iterator::all"):
+                # NF12: !it.all(|x| P)  ==  it.any(|x| !P)   (any is the canonical spelling under a negation)
+                cl = e["args"][0]
+                body = cl.get("body")
+                if isinstance(body, dict) and body.get("ty") == "bool":
+                    nb = self.rewrite({"k": "Unary", "op": "!", "e": body, "id": body.get("id"), "ty": "bool", "sp": body.get("sp")})
+                    r = dict(e)
+                    r["name"] = "any"
+                    r["callee"] = (e.get("callee") or "").replace("Iterator::all", "Iterator::any")
+                    if e.get("inst"):
+                        r["inst"] = e["inst"][:-len("::all")] + "::any" if e["inst"].endswith("::all") else e["inst"].replace("Iterator>::all", "Iterator>::any")
+                    r["args"] = [dict(cl, body=nb)]
+                    r["id"], r["sp"], r["nf"] = n.get("id"), n.get("sp"), "NF12"
+                    return r
             return n
         if k == "Binary":
             return self._binary(n)
